@@ -177,6 +177,11 @@ class _GlobSplit(Generic[AnyStr]):
             self.pattern = self.pattern[0:1]
         if flags & NEGATE:
             flags ^= NEGATE
+        # `MATCHBASE` applies to the pattern as a whole (handled when splitting), not to its individual parts.
+        if flags & MATCHBASE:
+            flags ^= MATCHBASE
+        if flags & _EXTMATCHBASE:
+            flags ^= _EXTMATCHBASE
         self.flags = flags
         self.extend = bool(flags & EXTMATCH)
         if not self.unix:
